@@ -121,7 +121,11 @@ Inductive hkind := HSync | HAsync | HThread.      (* plain function / coroutine 
 
 (* what the handler does when run.  HRaiseOther: any exception that is not a JsonRpcException;
    `text` stands for its formatted text, `tb` for the traceback payload InternalError.of builds *)
-Inductive houtcome := HRet | HRaiseRpc (x : exc) | HRaiseOther (text : str) (tb : D).
+Inductive houtcome :=
+| HRet                                    (* returns a value that serialises *)
+| HRetUnser                               (* returns a value json.dumps cannot serialise *)
+| HRaiseRpc (x : exc)
+| HRaiseOther (text : str) (tb : D).
 
 (* does the request's `params` member structure as the type registered for the method *)
 Inductive pstatus := POk | PBadValidation | PBadOther.
@@ -165,6 +169,9 @@ Definition n_invalid_params : str := [74;115;111;110;82;112;99;73;110;118;97;108
 Definition n_method_not_found : str := [74;115;111;110;82;112;99;77;101;116;104;111;100;78;111;116;70;111;117;110;100]%N.
 Definition n_cancelled : str := [74;115;111;110;82;112;99;82;101;113;117;101;115;116;67;97;110;99;101;108;108;101;100]%N.
 
+Definition msg_unserialisable : str :=
+  [85;110;97;98;108;101;32;116;111;32;115;101;114;105;97;108;105;122;101;32;116;104;101;32;114;101;115;117;108;116]%N.
+
 (* JsonRpcInternalError.of(sys.exc_info()):  cls(message=<text>, data={"traceback": ...}) *)
 Definition internal_error_of (text : str) (tb : D) : sres :=
   with_class n_internal (fun e => raise_reply (construct e (Some text) None (Some tb))).
@@ -191,6 +198,10 @@ Definition structure_request (p : pstatus) : option sres :=
 Definition reply_of_outcome (o : houtcome) : sres :=
   match o with
   | HRet => SReply RResult
+  | HRetUnser =>
+    (* _send_response: `_send_data(response) is False` ->
+       JsonRpcInternalError("Unable to serialize the result").to_response_error() *)
+    with_class n_internal (fun e => raise_reply (construct e (Some msg_unserialisable) None None))
   | HRaiseRpc x => send_error x
   | HRaiseOther text tb => internal_error_of text tb
   end.
@@ -240,7 +251,7 @@ Arguments COk {D}. Arguments CValueError {D}. Arguments CTypeError {D}. Argument
 Arguments mkErr {D}. Arguments r_code {D}. Arguments r_msg {D}. Arguments r_data {D}.
 Arguments base_init {D}. Arguments construct {D}. Arguments to_response_error {D}.
 Arguments from_error_loop {D}. Arguments from_error {D}.
-Arguments HRet {D}. Arguments HRaiseRpc {D}. Arguments HRaiseOther {D}.
+Arguments HRet {D}. Arguments HRetUnser {D}. Arguments HRaiseRpc {D}. Arguments HRaiseOther {D}.
 Arguments TUnknown {D}. Arguments TFeature {D}. Arguments TCommandKnown {D}. Arguments TCommandUnknown {D}.
 Arguments mkReq {D}. Arguments q_method {D}. Arguments q_idtxt {D}. Arguments q_params {D}.
 Arguments q_target {D}. Arguments q_cancelled {D}. Arguments q_outcome {D}.
